@@ -119,6 +119,11 @@ class Check:
             r.error(f"{type(e).__name__}: {e}")
         except RecursionError as e:  # pragma: no cover
             r.error(f"RecursionError: {e}")
+        except Exception as e:  # a rule that trips over an unforeseen construct is an analysis error of that rule (exit 2), never a verdict
+            import traceback
+            tb = traceback.extract_tb(e.__traceback__)
+            at = next((f"{os.path.basename(fr.filename)}:{fr.lineno}" for fr in reversed(tb) if "/armiverif/" in fr.filename), "?")
+            r.error(f"rule crashed at {at}: {type(e).__name__}: {e}")
         return r
 
     # ------------------------------------------------------------------ finish
